@@ -61,7 +61,12 @@ func (e *Ema[T]) Compute(c <-chan T) <-chan T {
 		sma := NewSma[T]()
 		sma.Period = e.Period
 
-		before := <-sma.Compute(helper.Head(c, e.Period))
+		before, ok := <-sma.Compute(helper.Head(c, e.Period))
+		if !ok {
+			// Fewer values than the period: there is no initial SMA, hence no output.
+			return
+		}
+
 		result <- before
 
 		multiplier := e.Smoothing / T(e.Period+1)
